@@ -22,17 +22,18 @@ func init() {
 		ID:    "C06",
 		Level: "exploration",
 		Rule: "every recursive construct of the grammar nested to depth 10, 10^2, ... up to the tier's maximum ( ((((1)))), a[a[a[...]]], not(not(...)), -(-(...)), a/((((b)))) - the parseStep/parseSequence cycle -, a/(a/(a/(...))), unterminated a/((((, f(f(f(...))), (a|(a|(...))) ) and every iterative construct to length 3*10^k (a/a/..., 1+1+..., a|a|..., a or a ..., a[1][1]..., a//a..., f(1,1,...), -----1, long names, long strings, long numbers), each through Compile, CompileWithNS (nil, empty, bound, unbound maps) and MustCompile; " +
-			"grammar-generated valid expressions and their truncations at every byte; seeded random token strings over the token alphabet plus arbitrary bytes (NUL, invalid UTF-8, non-ASCII name characters). The worker's maximum goroutine stack is lowered to 64 MiB so that unbounded recursion surfaces at depth ~10^5. " +
+			"grammar-generated valid expressions and their truncations at every byte; every function name x every list of 0-3 arguments over 9 argument kinds (number, string, path, boolean call, invalid regex, parenthesised and negated literals, variable, comparison); seeded random token strings over the token alphabet plus arbitrary bytes (NUL, invalid UTF-8, non-ASCII name characters). The worker's maximum goroutine stack is lowered to 64 MiB so that unbounded recursion surfaces at depth ~10^5. " +
 			"Non-trivial: the input is longer than 8 bytes; distinct by input text (hash).",
 		Assume:        []string{"a fatal runtime error kills only the worker process; the driver attributes it to the case announced last", "CPU budget per case: 150 s (observed maximum for 3 MB inputs: a few seconds)"},
 		MinNontrivial: tierN(50000, 500000),
-		Required:      []string{"deep", "long", "fuzz:accepted", "fuzz:rejected", "ns:unbound-rejected", "mustcompile"},
+		Required:      []string{"deep", "long", "fuzz:accepted", "fuzz:rejected", "ns:unbound-rejected", "mustcompile", "fnargs:accepted", "fnargs:rejected"},
 		Families: []Family{
 			witnessFamily("C06"),
 			{Name: "deep", N: func(t string) int { return len(c06Deep(t)) }, Run: func(c *Case) { c06Construct(c, c06Deep(c.Tier)[c.Index], "deep") }},
 			{Name: "long", N: func(t string) int { return len(c06Long(t)) }, Run: func(c *Case) { c06Construct(c, c06Long(c.Tier)[c.Index], "long") }},
 			{Name: "trunc", N: tierN(1500, 20000), Run: c06Trunc},
 			{Name: "fuzz", N: tierN(1000, 10000), Run: c06Fuzz},
+			{Name: "fnargs", N: func(string) int { return len(xgen.AllFuncs) }, Run: c06FnArgs},
 		},
 	})
 }
@@ -272,4 +273,27 @@ func c06Fuzz(c *Case) {
 		}
 	}
 	c.SampleEvery(211, func() interface{} { return map[string]interface{}{"family": "fuzz", "strings_per_case": 200} })
+}
+
+var c06ArgKinds = []string{"1", "'s'", "a", "true()", "'['", "(2)", "-1", "$v", "a = 1"}
+
+// c06FnArgs: one function name x every argument list of length 0..3 over the argument kinds.
+func c06FnArgs(c *Case) {
+	fn := xgen.AllFuncs[c.Index]
+	var rec func(args []string)
+	rec = func(args []string) {
+		src := fn + "(" + strings.Join(args, ", ") + ")"
+		c.c06Check(src, "fnargs")
+		if len(args) > 0 {
+			c.c06Check("//*["+src+"]", "fnargs")
+		}
+		if len(args) == 3 || c.Violated() {
+			return
+		}
+		for _, k := range c06ArgKinds {
+			rec(append(append([]string(nil), args...), k))
+		}
+	}
+	rec(nil)
+	c.Sample(map[string]interface{}{"family": "fnargs", "function": fn, "argument_kinds": c06ArgKinds, "max_args": 3})
 }
